@@ -360,10 +360,20 @@ def stream_norms(ctx, of, lcu, gon):
         ints = kind_h.startswith('int') or kind_g.startswith('int') or rng.random() < 0.2
         h, g = sym_matrix(rng, n, VALS_INT if ints else VALS), sym8_tensor(rng, n, VALS_INT if ints else VALS)
         const = rng.choice([0.0, 0.5, -1.25, 2.0]) if not ints else rng.choice([0, 1, -2, 0.5])
-        a, e1 = call(gon.get_one_norm_int, const, as_dtype(rng, h, kind_h), as_dtype(rng, g, kind_g))
-        w, e2 = call(gon.get_one_norm_int_woconst, as_dtype(rng, h, kind_h), as_dtype(rng, g, kind_g))
+        via = rng.choice(['int', 'int', 'mol'])
+        if via == 'mol':
+            # the MolecularData wrappers only read three attributes
+            import types
+            mol = types.SimpleNamespace(nuclear_repulsion=const, one_body_integrals=as_dtype(rng, h, kind_h),
+                                        two_body_integrals=as_dtype(rng, g, kind_g))
+            a, e1 = call(gon.get_one_norm_mol, mol)
+            w, e2 = call(gon.get_one_norm_mol_woconst, mol)
+        else:
+            a, e1 = call(gon.get_one_norm_int, const, as_dtype(rng, h, kind_h), as_dtype(rng, g, kind_g))
+            w, e2 = call(gon.get_one_norm_int_woconst, as_dtype(rng, h, kind_h), as_dtype(rng, g, kind_g))
         case = {'fn': 'get_one_norm_int', 'constant': const, 'one_body_integrals': h.tolist(), 'two_body_integrals': g.tolist(),
-                'dtypes': [kind_h, kind_g]}
+                'dtypes': [kind_h, kind_g], 'via': via}
+        s.count('get_one_norm:via=' + via)
         s.case(case, nontrivial=n >= 2)
         s.count('get_one_norm:n_orb=%d' % n)
         s.count('get_one_norm:dtypes=%s/%s' % (kind_h, kind_g))
